@@ -237,6 +237,22 @@ def h_add(ctx, B):
     ctx.prove(E.eq(r.as_integer, (d1 << b2) | d2), "concatenation wrong", key="add/value")
     _unchanged(ctx, f1, b1, d1, "add-left")
     _unchanged(ctx, f2, b2, d2, "add-right")
+    # augmented concatenation: `x += g` rebinds x to the longer frame; the object x named before (still
+    # referenced elsewhere) keeps its length and contents - a frame's length never changes
+    alias = f1
+    x = f1
+
+    def iadd():
+        nonlocal x
+        x += f2
+    st2, r2 = call(iadd)
+    if st2 == "exc":
+        ctx.fail("`f += g` raised %r" % (r2,), key="add/iadd-raised")
+    else:
+        ctx.prove(E.and_(E.eq(x.__len__(), b1 + b2), E.eq(x.as_integer, (d1 << b2) | d2)),
+                  "`f += g` gives a wrong frame", key="add/iadd-value")
+        _unchanged(ctx, alias, b1, d1, "add-iadd-alias")
+        _unchanged(ctx, f2, b2, d2, "add-iadd-right")
     ctx.observe("data", r.as_integer)
     return "ok"
 
